@@ -1,5 +1,5 @@
 (* C15: jitin_interval *)
-From Coq Require Import ZArith QArith String List Bool Lia ZifyBool.
+From Coq Require Import ZArith QArith String List Bool Lia.
 From Verif Require Import Jit.Lang Jit.Interp Jit.Safety Jit.Tactics Gen.Kernels.
 Import ListNotations.
 Open Scope Z_scope.
